@@ -126,6 +126,31 @@ class C17bModels:
                 return ClassV(nq)
         raise Unsupported(f"attribute {attr} of an MDO function value")
 
+    # ------------------------------------------------------------------ set(names).intersection(design_space)
+    def call_method(self, ex, recv, name, args, kwargs, lineno):
+        """``s.intersection(design_space)``: iterating a DesignSpace yields its variable names (``__iter__`` = ``iter(self._variables)``), so the
+        result is {x in s | x is a variable} - membership stated directly with the variables' dictionary (no existential over positions)."""
+        if not _on(ex) or name != "intersection" or len(args) != 1 or kwargs or not isinstance(recv, Ref) or not isinstance(args[0], Ref):
+            return NotImplemented
+        st = ex.st
+        so, ds = st.heap[recv.id], st.heap[args[0].id]
+        if not (isinstance(so, SetObj) and so.k == TStr and isinstance(ds, PyObj) and S.is_subclass(ds.cls, "gemseo.algos.design_space.DesignSpace")):
+            return NotImplemented
+        it = S.find_method(ds.cls, "__iter__")
+        v = ds.fields.get("_variables")
+        d = st.heap[v.id] if isinstance(v, Ref) else None
+        if it is None or ast.unparse(it.node.body[-1]) != "return iter(self._variables)" or not isinstance(d, DictObj):
+            return NotImplemented
+        x = z3.Const("x!is", STR)
+        member = st.fresh_const("kept_names", z3.ArraySort(STR, z3.BoolSort()))
+        st.assume(z3.ForAll([x], member[x] == z3.And(so.member[x], d.member[x]), patterns=[member[x]]))
+        n = st.fresh_int("kept_names_n")
+        out = SetObj(TStr, member, n)
+        out.ty = TSet(TStr)
+        for f in out.wf_facts(st):
+            st.assume(f)
+        return st.alloc(out)
+
     # ------------------------------------------------------------------ union of the input names of the disciplines
     def comprehension(self, ex, node, kind):
         if not _on(ex) or kind != "set" or len(node.generators) != 2:
@@ -355,3 +380,46 @@ class C17bNumpyModels:
         A.elems = z3.Lambda([i, j], z3.If(inside, _conv(src, mk, k), z3.Select(old, i, j)))
         ex.writeback(A)
         return True
+
+
+class _TValTuple(T):
+    """A field holding a concrete tuple of n opaque values (e.g. the 1-tuple of top-level disciplines of DisciplinaryOpt)."""
+
+    def __init__(self, n):
+        self.n = n
+        self.name = f"ValTuple[{n}]"
+
+    def fresh(self, st, hint):
+        from .values import TVal
+
+        return tuple(TVal.fresh(st, f"{hint}.{i}") for i in range(self.n))
+
+    def sort(self):
+        raise Unsupported("a concrete tuple cannot be stored in a symbolic container")
+
+
+def TValTuple(n):
+    return _TValTuple(n)
+
+
+class C17bOpaqueValueModels:
+    """Gated on ``c17b_opaque_values = {class qualname: function name}``: ``Class(list)`` is an opaque value, an uninterpreted function of the list
+    (e.g. MDOChain(disciplines): a discipline whose inputs / outputs are those given by the uninterpreted c17_inputs_of / c17_outputs_of)."""
+
+    def construct(self, ex, cv, args, kwargs, lineno):
+        ov = getattr(ex.contract, "c17b_opaque_values", None)
+        if not ov or cv.qualname not in ov or len(args) != 1 or kwargs:
+            return NotImplemented
+        from .values import TVal
+
+        d = ex.st.heap[args[0].id] if isinstance(args[0], Ref) else None
+        if not isinstance(d, ListObj):
+            raise Unsupported(f"{cv.qualname} of something that is no list")
+        lt = TList(d.t)
+        ex.assumed.add(f"opaque construction of {cv.qualname}(disciplines): an opaque discipline, uninterpreted function of the sequence of disciplines")
+        return SV(z3.Function(ov[cv.qualname], lt.sort(), ValS)(lt.embed(ex.st, args[0])), TVal)
+
+    def coerce(self, ex, v, t):
+        if isinstance(t, _TValTuple):
+            return v
+        return NotImplemented
